@@ -450,8 +450,9 @@ def maybe_replace_with_fstring(
         for cs in fs.specifiers
     ):
         return None
-    # don't attempt fancy conversion types
-    if any(cs.conversion_type not in ("d", "s") for cs in fs.specifiers):
+    # don't attempt fancy conversion types ("%d" truncates floats and prints bools as
+    # numbers, which "{}" does not)
+    if any(cs.conversion_type != "s" for cs in fs.specifiers):
         return None
     # only proceed if all the arguments are simple (currently, names or attribute accesses)
     if isinstance(args_node, ast.Tuple):
